@@ -494,6 +494,12 @@ func c16CheckSetString(r *rt.Result, l *c16Local, cs c16Case) {
 			// "+1.5" / " 1.5 " at (38,19)), and the same numeral without the
 			// decoration is within the limits
 			r.Violate("setstring/"+cl.shape+"/rejected-although-the-decoration-is-accepted-elsewhere", fmt.Sprintf("%s: error %v; the library accepts this decoration for other numbers, and %q is within the limits (unscaled %s)", where, err, c16Undecorated(cs.Text), cl.u), cs)
+		case err != nil && cl.name == "overlong-leading-zeros" && c16DecorationAccepted("leading-zeros"):
+			// redundant leading zeros may be refused, but not depending on
+			// how many there are: this library accepts them (probed with 50
+			// zeros in front of 1.5 at (38,19)), and the number is within
+			// the limits
+			r.Violate("setstring/overlong-leading-zeros/rejected-although-accepted-elsewhere", fmt.Sprintf("%s: error %v; the library accepts redundant leading zeros for other numerals, and the number (unscaled %s) is within the limits", clip(where, 200), err, cl.u), cs)
 		case err != nil:
 			l.ctr["unspecified_rejected/"+cl.name]++
 		case got.Cmp(cl.u) == 0:
@@ -859,7 +865,14 @@ func c16Spellings(p, s int, u *big.Int) []c16Gen {
 		}
 	}
 	// many redundant leading zeros (fixed-size scratch buffers)
-	for _, nz := range []int{40, 74, 79, 130} {
+	nzs := []int{40, 74, 79, 130}
+	if s == 0 || s == p {
+		nzs = append(nzs, 5000) // beyond any small fixed buffer or length cap
+		if p == 38 && s == 0 {
+			nzs = append(nzs, 70000)
+		}
+	}
+	for _, nz := range nzs {
 		g = append(g, c16Gen{sign + c16Zeros(nz) + abs, fmt.Sprintf("leading-zeros-%d", nz)})
 	}
 	if sign == "" {
@@ -986,7 +999,7 @@ func runC16(c *Ctx) {
 	r.Assumptions = []string{
 		"a value is set without the text path via SetBytes(|u|) and Negate(); Int() returns the unscaled integer",
 		"not judged (counted): acceptance of representable values in over-long or lenient spellings (trailing zeros beyond the scale, leading zeros beyond precision-scale digits, '+', surrounding white space, missing integer or fraction part) — accepted exactly or rejected are both fine, a changed value is not; NewDecimal(0,0); whether the receiver is untouched after an error",
-		"a plus sign or surrounding white space may be refused, but not depending on the number: the library is probed once with '+1.5' and ' 1.5 ' at (38,19); if it accepts the decoration there, refusing it on a numeral that is within the limits without the decoration is a violation",
+		"a plus sign, surrounding white space or redundant leading zeros may be refused, but not depending on the number or on how many zeros there are: the library is probed once with '+1.5', ' 1.5 ' and 50 zeros + '1.5' at (38,19); if it accepts the decoration there, refusing it on a numeral that is within the limits without the decoration is a violation",
 		"'N.0' is within the limits at scale 0 and '0.F' at scale == precision, because String() itself must print them and parse-back must accept them",
 	}
 	if c.Replay != nil {
@@ -1231,7 +1244,7 @@ var (
 // c16DecorationAccepted: does the library accept the decoration at all?
 func c16DecorationAccepted(shape string) bool {
 	c16DecoOnce.Do(func() {
-		for sh, text := range map[string]string{"plus-sign": "+1.5", "surrounding-spaces": " 1.5 "} {
+		for sh, text := range map[string]string{"plus-sign": "+1.5", "surrounding-spaces": " 1.5 ", "leading-zeros": strings.Repeat("0", 50) + "1.5"} {
 			var err error
 			if rt.Catch(func() { _, err = asetypes.NewDecimalString(38, 19, text) }) == nil && err == nil {
 				c16DecoOK[sh] = true
